@@ -44,7 +44,7 @@ CTX = Ctx()
 SCHEMES = ["explicit_euler", "generalized_rush_larsen", "forward_explicit_euler",
            "forward_generalized_rush_larsen", "hybrid_rush_larsen"]
 NAMES = ["m", "cell", "model_2", "cell.v2"]
-DAMAGE = ["delete", "empty", "truncate", "truncate", "flip", "flip", "badutf8", "dir", "dup_tail", "crlf", "bom"]
+DAMAGE = ["delete", "empty", "truncate", "truncate", "flip", "flip", "badutf8", "badutf8", "latin1", "dir", "dup_tail", "crlf", "bom"]
 ARMS = [("read_eio", "model"), ("read_eacces", "model"), ("vanish", "model"), ("vanish_at_open", "model"), ("read_eio", "config"),
         ("read_eacces", "config"), ("write_enospc", "output"), ("write_partial", "output")]
 
@@ -222,8 +222,12 @@ def build_machine():
                 return
             files = sorted(str(p.relative_to(self.world.proj)) for p in self.world.proj.rglob("*")
                            if p.is_file() and ".git" not in p.parts)
-            if files:
-                self.world.damage(files[pick % len(files)], fault, k)
+            models = [f for f in files if f.endswith((".ode", ".cellml"))]
+            # two times out of three the fault hits a model file (the input of the next
+            # invocations); otherwise any file of the project (outputs, configs)
+            pool_ = models if (models and pick % 3 != 0) else files
+            if pool_:
+                self.world.damage(pool_[(pick // 3) % len(pool_)], fault, k)
 
         @precondition(lambda self: faults_on and stub_present)
         @rule(mode=st.sampled_from(["ok", "fail", "partial", "garbage"]))
